@@ -32,10 +32,16 @@ def run(script, cache=None):
 def nop_steps(ctx, code):
     n = 0
     cache0 = {b'k': [b'\x01'], 'sigfield1': b'abc'}
-    for depth in DEPTHS:
+    for depth, variety in [(d, v) for d in DEPTHS for v in (0, 1, 2)]:
+        if variety and depth > 5:
+            continue
         items = [bytes([0x10 + (i % 200)]) + bytes([i // 200]) for i in range(depth)]
-        pre = b''.join(push(it) for it in items)
-        for cnt in range(256):
+        if variety == 1:      # every item empty
+            items = [b''] * depth
+        elif variety == 2:    # mixed: empty, one byte, long
+            items = [(b'', b'\x00', b'\xab' * 300)[i % 3] for i in range(depth)]
+        pre = b''.join((push(it) if it else b'\x03\x00') for it in items)
+        for cnt in (range(256) if not variety else list(range(8)) + [127, 128, 255]):
             n += 1
             script = pre + bytes([code, cnt]) + b'\x02\xee'      # marker push after the NOP: pointer advanced by exactly 2
             r, st, c, tape = run(script, cache0)
@@ -268,7 +274,7 @@ def blocks(tier, seed):
     fc = [(c, pr, maxnodes if (q or c in (92, 128, 255)) else 2) for c in codes for pr in PREDS]
     return [
         Block('A_nop_single_steps', list(range(92, 256)), nop_steps,
-              'every NOP code x every count byte x stack depths %s' % DEPTHS, nshards=164),
+              'every NOP code x every count byte x stack depths %s (plus empty / mixed-size item stacks)' % DEPTHS, nshards=164),
         Block('B_nop_compile_decompile', list(range(92, 256)), nop_compile, 'every code x every count byte, x / d spellings, decompile round trip',
               nshards=164),
         Block('C_soft_fork_compatibility', fc, fork_case,
